@@ -7,12 +7,12 @@ import re
 from harness import fw, types_x as tx, gen_typed as gt
 
 META = {
-    "technique": "Coq proof that a Gallina mirror of attribute_checker.normalize_and_verify + constraints.check_constraints (on the modelled IR subset) decides the documented rules, for every attribute/reserved-word table; prelude static_requirements evaluated with the C05 model of ir_util.constant_value; tables regenerated each run (prelude.emb through the real front end, attribute tables by import+introspection, reserved_words from the file) + differential correspondence on generated realisable modules, boundary variants and single-rule violations",
-    "level_text": "Machine-checked theorems (Coq 8.16, no axioms), for ALL modules of the modelled IR subset and ALL attribute and reserved-word tables: check_layout accepts <-> realisable (documented width ranges, enum range vs maximum_bits/is_signed, bits fixed-size <= 64 with bit-oriented members only, array element rules with only the outermost length omitted, explicit size = fixed size, byte order present iff it matters and Null only for one-unit fields, attribute scope/multiplicity/value tables, reserved words, integer parameter widths); prelude_requirements (UInt/Int/Bcd 1..64, Flag 1, Float 32|64) computed from the requirement expressions; $default byte_order inheritance = nearest enclosing default; _fixed_size_of_struct_or_bits = largest end of a physical field. The requirement expressions are compared each run with the translation of the working tree's prelude.emb; every generated case compares the mirror (on the regenerated tables) with the compiler and with what the catalogue says the reference demands.",
-    "level_note": "Trusted: Coq kernel + vm_compute; harness/types_x.py (LayoutTranslator; ir_util.constant_value and the size bounds of expression_bounds are read from the IR, C05 covers them); harness/gen_typed.py decides the documented verdict of each generated case. Modelled, not verified: the Python source. Not modelled: the (cpp) back-end attribute tables (checked at header generation, not by parse_emboss_file), expected_back_ends syntax, user-defined externals, imported types, [requires] on arrays, the 64-bit gate (C05), constancy of static references; errors from those checks are excluded from the verdict comparison (counted).",
+    "technique": "Coq proof that a Gallina mirror of the front end's layout/attribute passes (check_early_constraints, attribute_checker.normalize_and_verify, constraints.check_constraints) and of the C++ back end's attribute verification (header_generator._propagate_defaults_and_verify_attributes) decides the documented rules, for every attribute/reserved-word table; string validators of (cpp) namespace / enum_case modelled as scanners and proved to decide their grammars; prelude static_requirements evaluated with the C05 model of ir_util.constant_value; tables regenerated each run (prelude.emb through the real front end; front-end and (cpp) attribute tables, C++ reserved words, supported enum cases by import+introspection; reserved_words from the file; the namespace regular expressions compared with the ones the scanner was proved against) + differential correspondence on generated realisable modules, boundary variants and single-rule violations (verdict of front end and back end, effective attributes) and on generated attribute strings (function level)",
+    "level_text": "Machine-checked theorems (Coq 8.16, no axioms), for ALL modules of the modelled IR subset and ALL tables. check_layout_iff_realisable: documented width ranges, enum range vs maximum_bits/is_signed, bits fixed-size <= 64 with bit-oriented members only, array element rules with only the outermost length omitted, explicit size = fixed size, byte order present iff it matters and Null only for one-unit fields, attribute scope/multiplicity/value tables, reserved words, integer parameter widths. check_layout_x_iff_realisable_x extends it with: the (cpp) attribute table at every attribute-bearing node of every module (namespace only on the module and not defaultable, enum_case $default on module/struct/bits/enum and plain on enum values, nothing on fields/externals, no duplicates, string values), namespace_rule (optional leading ::, non-empty ::-separated list of C++ identifiers padded by whitespace, none reserved; empty/global/invalid/reserved classified as the back end does), enum_case_rule (comma-separated padded names, optional trailing comma, non-empty, distinct, supported), [requires] only on non-array integer/enumeration/boolean fields, integer parameters need and enum parameters must not have an explicit width, gate64_rule (every run-time integer (sub)expression fits uint64 or int64 and no operation mixes a uint64-only with an int64-only clause), imported modules (type tables span all modules of the IR; each imported module's own attributes and back-end declarations). prelude_requirements, defaults_inherited, struct_fixed_size_spec as before. parameter_names_checked: an accepted module has no runtime parameter named by a reserved word (rule added to the front end by /repo 8d5ef9f; old_parameter_names_unchecked_refuted documents the earlier checker).",
+    "level_note": "Trusted: Coq kernel + vm_compute; harness/types_x.py (LayoutTranslator, ExtTranslator; ir_util.constant_value and the bounds of expression_bounds are read from the IR, C05 covers them; the roots of the 64-bit gate are collected with traverse_ir and the arguments of the compiler's own traversal); harness/gen_typed.py decides the documented verdict of each generated case by construction. Modelled, not verified: the Python source. Not modelled: user-defined externals (addressable_unit_size / is_integer / static_requirements of non-prelude externals: counted out-of-model), expected_back_ends syntax, constancy of static references (\"Static references must refer to constants\"), non-ASCII characters in attribute strings; errors from those checks are excluded from the verdict comparison (counted).",
 }
 
-HEADER = "Require Import EmbossV.Bounds.Model EmbossV.Layout.Model EmbossV.Layout.Exec.\nFrom Coq Require Import String.\nOpen Scope string_scope.\nOpen Scope Z_scope.\n"
+HEADER = "Require Import EmbossV.Bounds.Model EmbossV.Layout.Model EmbossV.Layout.Exec EmbossV.Layout.ModelExt EmbossV.Layout.ExecExt.\nFrom Coq Require Import String.\nOpen Scope string_scope.\nOpen Scope Z_scope.\n"
 
 
 def crash_key(crash):
@@ -46,13 +46,26 @@ def run(ctx):
                 "(widths 1 and 64, 64-bit floats, enum values at both range ends, Null on a one-byte field ...) and single-rule "
                 "violations (widths 0/65/72, 33/24/16-bit floats, 65-bit bits, byte-oriented member in bits, dynamic array "
                 "element, inner dimension omitted/dynamic, missing/extra/Null byte order, attribute in wrong scope / duplicated / "
-                "wrong value type / not defaultable / unknown, reserved words ...); plus every testdata/*.emb; distinct by module text")
+                "wrong value type / not defaultable / unknown, reserved words ...); plus every testdata/*.emb; "
+                "extension: a small module with one site per attribute scope carrying (cpp) namespace / enum_case at every scope x "
+                "$default x good and bad values (empty, global, invalid, reserved; empty, duplicate, unsupported case), duplicates, wrong value "
+                "kinds, unknown (cpp) names; [requires] on integer/enum/boolean/virtual (ok) and array/structure/float/opaque (violation) fields; "
+                "parameter forms; expressions at the uint64 maximum / int64 minimum and one beyond, mixed signedness; fields of imported "
+                "struct/enum/bits types under every layout rule and rules broken inside the imported module; the deterministic family of "
+                "sizes that are constant without being literals (constant let, arithmetic on constant lets, static reference, literal) for "
+                "size-less scalars/enums, explicit widths and fixed-size structs; 900+ generated namespace and 450+ enum_case strings "
+                "(grammar-directed with whitespace incl. control characters, single-character insertions/deletions) against the back end's "
+                "validators; distinct by module text / string")
     ctx.trusted = ["Coq 8.16.1 kernel, vm_compute", "harness/types_x.py", "harness/gen_typed.py", "harness/props/c14.py",
                    "CPython 3.12 running the working tree's front end"]
-    ctx.assumptions = ["(cpp) back-end attribute tables, user externals, imported types and the checks listed in level_note are outside the model (counted)"]
+    ctx.assumptions = ["user-defined externals and the checks listed in level_note are outside the model (counted)"]
+    import time
+    t_start = time.time()
+    timing = ctx.extra.setdefault("timing_s", {})
     ctx.audit()
-    ctx.check_theorems("EmbossV.Layout.Properties_C14", "Layout/Properties_C14.v", expect_min=10)
+    ctx.check_theorems("EmbossV.Layout.Properties_C14", "Layout/Properties_C14.v", expect_min=26)
 
+    timing["theorems"] = round(time.time() - t_start, 1)
     # ---- cases ---------------------------------------------------------------------------
     cases = []
     for nm, text, exp in load_corpus_cases():
@@ -72,6 +85,14 @@ def run(ctx):
             cases.append(("gen:%d:%s" % (i, v.rule), v.text(), "m.emb", None, v, {}))
     for k, v in enumerate(gt.default_scope_cases(ctx.rng, n=(24 if ctx.thorough() else 9))):
         cases.append(("scope:%d:%s" % (k, v.rule), v.text(), "m.emb", None, v, {}))
+    # extension: (cpp) attributes at every scope, [requires] placement / parameter / 64-bit rules, imported types
+    new_rule_cases = gt.cpp_cases(ctx.rng, ctx.thorough()) + gt.ext_cases(ctx.rng) + gt.import_cases(ctx.rng)
+    for k, v in enumerate(new_rule_cases):
+        cases.append(("ext:%d:%s" % (k, v.rule), v.text(), "m.emb", v.extra, v, {}))
+    # sizes that are constant without being literals (constant let, arithmetic on constant lets, static reference):
+    # deterministic family, whole in every run; verdicts by construction
+    for k, v in enumerate(gt.constant_size_cases()):
+        cases.append(("csize:%d:%s" % (k, v.rule), v.text(), "m.emb", None, v, {}))
     order = sorted(range(len(cases)), key=lambda i: -len(cases[i][1]))
     pool = multiprocessing.Pool(min(fw.NPROC, 16))
     pending = pool.map_async(tx.analyse_c14, [(cases[i][1], cases[i][2], cases[i][3], fw.REPO) for i in order], chunksize=1)
@@ -83,6 +104,7 @@ def run(ctx):
         tabs = tx.attribute_tables()
         words = tx.reserved_words(fw.REPO)
         reqf, fixf = tx.prelude_table()
+        ctabs, n_cpp_words, cpp_supported = tx.cpp_tables()
     except tx.TranslatorError as ex:
         tables_ok = False
         broken = str(ex)
@@ -92,7 +114,10 @@ def run(ctx):
         hdr = (HEADER + "Definition tabs_run : attr_tables := %s.\n" % tabs
                + "Definition words_run : list string := [%s].\n" % "; ".join(tx.coq_str(w) for w in words)
                + "Definition req_run : prelude -> expr := %s.\nDefinition fixed_run : prelude -> option Z := %s.\n" % (reqf, fixf)
-               + "Definition T_run : tables := mk_tables tabs_run words_run req_run.\n")
+               + "Definition T_run : tables := mk_tables tabs_run words_run req_run.\n"
+               + "Definition C_run : cpp_tables := %s.\n" % ctabs)
+        ctx.extra["cpp_reserved_words"] = n_cpp_words
+        ctx.extra["cpp_supported_enum_cases"] = cpp_supported
         ctx.extra["reserved_words"] = len(words)
         ctx.extra["regenerated_prelude_requirements"] = reqf
         r = fw.CoqCases(ctx, "prelude", hdr, "(fun _ : unit => prelude_table_ok req_run fixed_run)", "Bool.eqb", "unit", "bool")
@@ -100,11 +125,13 @@ def run(ctx):
         ctx.obligation("regenerated prelude static_requirements / fixed sizes = Layout.Model.prelude_req / prelude_fixed", same)
         tables_ok = same
     else:
-        hdr = (HEADER + "Definition T_run : tables := ex_T.\n")
+        hdr = (HEADER + "Definition T_run : tables := ex_T.\nDefinition C_run : cpp_tables := ex_C.\n")
 
+    timing["tables"] = round(time.time() - t_start, 1)
     results_sorted = pending.get()
     pool.close()
     pool.join()
+    timing["analysis-done"] = round(time.time() - t_start, 1)
     results = [None] * len(cases)
     for k, i in enumerate(order):
         results[i] = results_sorted[k]
@@ -121,14 +148,20 @@ def run(ctx):
         if label.startswith("gen:") and label.endswith(":base") and an["full"][0] != "ok":
             base_bad.add(label.split(":")[1])
     for (label, text, name, extra, case, exp), an in zip(cases, results):
-        full_st, full_detail = an["full"]
+        front_st, front_detail = an["full"]
+        be = an.get("backend")
+        # embossc = front end, then the C++ back end (whose first step verifies the (cpp) attributes)
+        if front_st == "ok" and be is not None and be[0] != "ok":
+            full_st, full_detail = be
+        else:
+            full_st, full_detail = front_st, front_detail
         if label.startswith("gen:") and not label.endswith(":base") and label.split(":")[1] in base_bad:
             # the base itself is rejected (reported once, with the base): its variants say nothing new
             ctx.count("skipped:variant-of-rejected-base")
             continue
-        ctx.count("compiler:" + full_st)
+        ctx.count("compiler:" + full_st + (":back-end" if front_st == "ok" and full_st != "ok" else ""))
         rule = case.rule if case is not None else exp.get("rule")
-        replay = dict(kind="module", label=label, file=name, module=text, rule=rule,
+        replay = dict(kind="module", label=label, file=name, module=text, rule=rule, extra_files=extra,
                       mutated_line=(case.line if case is not None else None), compiler=full_st, detail=full_detail)
         want_accept = (case is not None and case.doc_realisable) or exp.get("expect") == "accept"
         want_reject = (case is not None and not case.doc_realisable) or exp.get("expect") == "reject"
@@ -147,7 +180,8 @@ def run(ctx):
                 ctx.count("skipped:known-divergence-on-foreign-default")
                 continue
         elif want_reject and full_st == "ok":
-            viol(gt.C14_KNOWN.get(rule, "layout-accepts:%s" % rule), "unrealisable module accepted (rule %s, line %s)" % (rule, case.line if case else "?"), replay)
+            viol("reserved-word-parameter-name-accepted" if str(rule).startswith("reserved-word:parameter-name") else
+                 gt.C14_KNOWN.get(rule, "layout-accepts:%s" % rule), "unrealisable module accepted (rule %s, line %s)" % (rule, case.line if case else "?"), replay)
         elif want_reject and case is not None:
             ok_lines = set([case.line] + case.alt_lines)
             on_line = [e for e in full_detail if e[0] in ok_lines and not e[1]]
@@ -159,6 +193,11 @@ def run(ctx):
                          "rule %s (line %d): the error %r has no source location" % (rule, case.line, nowhere[0][2]), replay)
                 else:
                     viol("error-site:%s" % rule, "rule %s planted on line %d; errors reported at %s" % (rule, case.line, [(e[0], e[1]) for e in full_detail][:4]), replay)
+        if label.startswith("ext:") and case is not None:
+            # per new rule: both directions
+            ctx.count("new-rule:%s:%s" % (rule, "accepted" if full_st == "ok" else "rejected"))
+            ctx.count("new-rule-direction:%s" % ("realisable-accepted" if case.doc_realisable and full_st == "ok" else
+                                                 "violation-rejected" if not case.doc_realisable and full_st == "errors" else "UNEXPECTED"))
         # --- model vs implementation ---
         lv = an["layout"][0]
         ctx.count("layout-verdict:" + lv)
@@ -167,48 +206,116 @@ def run(ctx):
             if an["oom"].startswith("TRANSLATOR"):
                 viol("translator", "IR translator failed on %s: %s" % (label, an["oom"][:300]), dict(replay, correspondence="types_x.LayoutTranslator"), found=False)
             continue
-        ctx.case(("m", text), nontrivial=True, sample={"label": label, "rule": rule, "compiler": lv})
+        ctx.case(("m", text, sorted((extra or {}).items())), nontrivial=True, sample={"label": label, "rule": rule, "compiler": lv})
         ctx.count("rule:" + str(rule).split(":")[0])
+        for k, n in (an.get("ext_counts") or {}).items():
+            ctx.count("model-input:" + k, n)
         if lv == "unmodelled-reject":
             ctx.count("skipped:rejected-only-by-unmodelled-check")
             continue
         verdict = (lv == "accept")
         bs = an.get("borders")
         ctx.count("effective-byte-orders-compared" if bs else "effective-byte-orders-not-available")
-        coq_cases.append((an["coq"], "(EExpect %s true %s)" % ("true" if verdict else "false", "(Some %s)" % bs if bs else "None"),
-                          dict(label=label, text=text, rule=rule, an=an, case=case)))
-        if case is not None and lv in ("accept", "reject") and verdict != case.doc_realisable and full_st != "crash":
-            pass   # already reported above as a property violation with the concrete module
+        # the back end runs only on what the front end accepts
+        cpp = "None"
+        if front_st == "ok" and be is not None and be[0] in ("ok", "errors"):
+            cpp = "(Some %s)" % ("true" if be[0] == "ok" else "false")
+            ctx.count("cpp-verdict-compared:" + be[0])
+        coq_cases.append(("(%s,\n %s)" % (an["ext"], an["coq"]),
+                          "(XExpect %s %s true %s)" % ("true" if verdict else "false", cpp, "(Some %s)" % bs if bs else "None"),
+                          dict(label=label, text=text, rule=rule, an=an, case=case, extra=extra, full_st=full_st)))
 
-    r = fw.CoqCases(ctx, "layout", hdr, "(run_layout4 T_run)", "eout_agrees", "module", "eout", shard=20)
+    r = fw.CoqCases(ctx, "layout", hdr, "(run_layout_x T_run C_run)", "xout_agrees", "(ext_info * module)", "xout", shard=20)
     bad = r.run(coq_cases) if coq_cases else []
-    ctx.obligation("correspondence: %d modules: check_layout(T_run) = compiler's verdict on the modelled rules, effective byte order of every field, maximum_bits/is_signed of every enum and fixed size of every structure = the unqualified attributes after normalisation" % len(coq_cases), not bad)
+    timing["layout-cases-evaluated"] = round(time.time() - t_start, 1)
+    ctx.obligation("correspondence: %d modules: check_front_x(T_run) = the front end's verdict on the modelled rules (attribute tables, layout, [requires] placement, parameter rules, 64-bit gate, imported modules), check_cpp(C_run) = the C++ back end's attribute verification, effective byte order of every field, maximum_bits/is_signed of every enum and fixed size of every structure = the unqualified attributes after normalisation" % len(coq_cases), not bad)
     shown = 0
     for idx, out in bad:
         a, b, obj = coq_cases[idx]
         case = obj["case"]
-        full_st = obj["an"]["full"][0]
+        full_st = obj["full_st"]
         # the concrete module is in hand: if the property itself fails on it, it has been reported above
         if case is not None and ((case.doc_realisable and full_st != "ok") or (not case.doc_realisable and full_st != "errors")):
             continue
         vtxt = "true" if obj["an"]["layout"][0] == "accept" else "false"
-        if obj["an"].get("borders") and ("EModel %s true" % vtxt) in " ".join(out.split()):
+        be = obj["an"].get("backend")
+        ctxt = ("true" if be[0] == "ok" else "false") if be is not None and be[0] in ("ok", "errors") else None
+        flat = " ".join(out.split())
+        same_verdicts = ("XModel %s " % vtxt) in flat and (ctxt is None or ("XModel %s %s " % (vtxt, ctxt)) in flat)
+        if obj["an"].get("borders") and same_verdicts:
             # same verdict, different byte orders: by theorem defaults_inherited the model's value IS the nearest
             # enclosing $default, so the front end gave some field another byte order: a concrete failing module
             ctx.violation("effective-attributes-differ-from-documented",
                           "%s: the unqualified byte_order / maximum_bits / is_signed / fixed_size_in_bits after normalisation differ from what the reference gives (own attribute, nearest enclosing $default, Null; 64 / any negative value; largest field end)" % obj["label"],
-                          dict(kind="module", module=obj["text"], rule=obj["rule"], theorem="defaults_inherited",
+                          dict(kind="module", module=obj["text"], extra_files=obj["extra"], rule=obj["rule"], theorem="defaults_inherited",
                                front_end_byte_orders=obj["an"]["borders"], model_outputs=out[:3000]), found_input=True)
             shown += 1
             continue
         ctx.violation("layout-model-mismatch", "model and compiler disagree on %s (compiler: %s)" % (obj["label"], b),
-                      dict(kind="module", correspondence="Layout.Model.check_layout vs normalize_and_verify+check_constraints",
-                           module=obj["text"], rule=obj["rule"], python=b, model_outputs=out[:1500]), found_input=False)
+                      dict(kind="module", correspondence="Layout.ModelExt.check_layout_x vs check_early_constraints+normalize_and_verify+check_constraints+header_generator._propagate_defaults_and_verify_attributes",
+                           module=obj["text"], extra_files=obj["extra"], rule=obj["rule"], python=b, model_outputs=out[:1500]), found_input=False)
         shown += 1
         if shown >= 5:
             break
+
+    # ---- string validators of the C++ back end, function level ------------------------------------
+    if tables_ok:
+        nstr = 4000 if ctx.thorough() else 900
+        ns = gt.ns_strings(ctx.rng, nstr)
+        ec = gt.ec_strings(ctx.rng, nstr // 2, cpp_supported)
+        ns_cases, ec_cases = [], []
+        for rule, sx in ns:
+            try:
+                cls, comps = tx.real_namespace_verdict(sx)
+                ns_cases.append((tx.coq_bytes(sx), "(%s, [%s])" % (cls, "; ".join(tx.coq_bytes(x) for x in (comps if cls == "NsOk" or cls == "NsReserved" else []))), (rule, sx)))
+            except tx.OutOfModel:
+                ctx.count("out-of-model:namespace-string")
+                continue
+            ctx.case(("ns", sx), nontrivial=True)
+            ctx.count("namespace-string:" + cls)
+        for rule, sx in ec:
+            try:
+                ok, cs = tx.real_enum_case_verdict(sx)
+                ec_cases.append((tx.coq_bytes(sx), "(%s, [%s])" % ("true" if ok else "false", "; ".join(tx.coq_bytes(x) for x in cs)), (rule, sx)))
+            except tx.OutOfModel:
+                ctx.count("out-of-model:enum-case-string")
+                continue
+            ctx.case(("ec", sx), nontrivial=True)
+            ctx.count("enum-case-string:" + ("accepted" if ok else "rejected"))
+        r1 = fw.CoqCases(ctx, "ns", hdr, "(run_ns (ct_reserved C_run))", "ns_out_eqb", "string", "(ns_class * list string)", shard=500)
+        bad1 = r1.run(ns_cases)
+        ctx.obligation("correspondence: %d strings: ns_classify / parse_ns = header_generator._verify_namespace_attribute (error class) and _get_namespace_components" % len(ns_cases), not bad1)
+        r2 = fw.CoqCases(ctx, "ec", hdr, "(run_ec (ct_cases C_run))", "ec_out_eqb", "string", "(bool * list string)", shard=500)
+        bad2 = r2.run(ec_cases)
+        ctx.obligation("correspondence: %d strings: enum_case_okb / enum_cases = header_generator._verify_enum_case_attribute and _split_enum_case_values" % len(ec_cases), not bad2)
+        for which, badl, cl in (("namespace", bad1, ns_cases), ("enum_case", bad2, ec_cases)):
+            for idx, out in badl[:3]:
+                # a value on which the scanner (proved to decide the documented grammar) and the back end differ
+                ctx.violation("cpp-%s-validator-differs-from-grammar" % which,
+                              "(cpp) %s value %r: back end says %s, the grammar decided by the model says %s" % (which, cl[idx][2][1], cl[idx][1], " ".join(out.split())[:200]),
+                              dict(kind="attribute-value", attribute=which, value=cl[idx][2][1], theorem="namespace_rule" if which == "namespace" else "enum_case_rule",
+                                   module='[(cpp) %s: "%s"]\nstruct Foo:\n  0 [+1]  UInt  x\n' % ("namespace" if which == "namespace" else "$default enum_case", cl[idx][2][1].replace("\\", "\\\\").replace('"', '\\"').replace("\n", "\\n"))),
+                              found_input=True)
+
+    timing["strings-evaluated"] = round(time.time() - t_start, 1)
+    # ---- a parameter named by a reserved word (repaired by /repo 8d5ef9f; theorem parameter_names_checked) ----------
+    probe = "struct Foo(class: UInt:8):\n  0 [+1]  UInt  x\n"
+    st_p, r_p = tx.compile_emb(probe, repo=fw.REPO)
+    ctx.count("probe:reserved-word-parameter-name:" + st_p)
+    lines_p = tx.error_lines(r_p) if st_p == "errors" else []
+    ctx.obligation("probe: 'struct Foo(class: UInt:8)' is rejected on line 1", st_p == "errors" and any(e[0] == 1 and not e[1] for e in lines_p))
+    if st_p == "ok":
+        ctx.violation("reserved-word-parameter-name-accepted",
+                      "a runtime parameter may be named by a reserved word ('struct Foo(class: UInt:8)' is accepted; the generated header "
+                      "declares a constructor argument called 'class' and does not compile): the reserved-word list is not applied to parameter names",
+                      dict(kind="module", module=probe, theorem="parameter_names_checked"), found_input=True)
+    elif st_p == "errors" and not any(e[0] == 1 and not e[1] for e in lines_p):
+        ctx.violation("error-site:reserved-word:parameter-name", "'struct Foo(class: UInt:8)': errors reported at %s, not on line 1" % [(e[0], e[1]) for e in lines_p][:4],
+                      dict(kind="module", module=probe), found_input=True)
+    elif st_p == "crash":
+        ctx.violation(crash_key(tx._crash_plain(r_p)), "compiler crashed on the reserved-word parameter probe", dict(kind="module", module=probe), found_input=True)
     if not tables_ok and not [k for k in seen if not k.startswith(("bounds-assert", "attribute-crash", "constraints-error-without"))]:
         ctx.violation("layout-tables-changed", "regenerated tables differ from the ones the theorems are about",
-                      dict(kind="table", theorem="check_layout_iff_realisable (t_req T = prelude_req) / prelude_requirements",
+                      dict(kind="table", theorem="check_layout_iff_realisable (t_req T = prelude_req) / prelude_requirements / check_layout_x_iff_realisable_x (C_run)",
                            detail=broken or "prelude_table_ok = false"), found_input=False)
     ctx.extra["violations_by_key"] = seen
